@@ -174,21 +174,14 @@ def run_base(ctx, rnd, tag, res, top, fin, weak, M0, mf, cases, nev, dopts=None)
                 base[key + "_cfg"] = cfg
                 base[key + "_el"] = el
             elif vname in (("perm1_base", "perm0_align_center_mass") if ctx.tier == "quick" else
-                           ("perm1_base", "perm2_base", "perm0_align_center_mass", "perm1_align_center_mass")) and not (
-                    frame == "moving" and opts.get("align_ref") == "center_mass"):
+                           ("perm1_base", "perm2_base", "perm0_align_center_mass", "perm1_align_center_mass")):
                 alignment_cases(ctx, tag, vname, frame, base[key + "_el"], el, 1 if ctx.tier == "quick" else nev, meta0)
             # superposition layer for this convention (event 0)
             tol = 1e-12 * max(1e-30, float(np.abs(full).max()))
             cases.append(("S_%s_%s_%s" % (tag, vname.replace("+", "_"), frame),
                           "close_all %s (vsum %d [%s]) %s" % (Rq(tol), ncomp, "; ".join(c03.clist(pc[0]) for pc in per), c03.clist(full[0])), RT,
                           dict(meta0, layer="superposition")))
-            # align_ref=center_mass refers the alignment to the momenta AS GIVEN (hard-coded lab axes): alignment is "referred to
-            # the parent rest frame" only when the data are in that frame (given so, or via center_mass: True).  With a moving
-            # parent and center_mass=False the alignment is referred to the lab frame instead - outside the property's admissible
-            # settings (observation O2 in DESIGN.md), so that cell is not generated.
-            if frame == "moving" and opts.get("align_ref") == "center_mass" and not opts.get("center_mass", False):
-                ctx.count("skipped:align_cm_with_moving_parent")
-                continue
+            # (align_ref=center_mass with a moving parent is a regular cell since /repo 1d717fd: the reference is built in the parent rest frame)
             for e in range(nev):
                 b = float(base[key][e])
                 cases.append(("V_%s_%s_%s_e%d" % (tag, vname.replace("+", "_"), frame, e),
@@ -228,7 +221,8 @@ def known_reproducers(ctx):
                  site="tf_pwa chains of one topology declaring their daughters in opposite order", fingerprint="opposite_daughter_order",
                  failing_input={"config_order_1": cfg1(["R1", "R2", "R3"]), "config_order_2": cfg1(["R2", "R1", "R3"]), "params": pars,
                                 "events": {k: v.tolist() for k, v in p4.items()}, "densities": [vals[0].tolist(), vals[1].tolist()]})
-    # (2) identical spin-1 particles with a chain set that is not closed under their exchange
+    # (2) identical spin-1 particles with a chain set that is not closed under their exchange (repaired in /repo 4749fab: kept as a
+    #     regression case; the finding is registered as fixed, so a failure here is a VIOLATION again)
     mf = {"B": 0.5, "C": 0.5, "D": 0.14}; M0 = 2.5
     p4 = ampkit.gen_events(M0, mf, 2, 7)
 
